@@ -164,7 +164,18 @@ theorem lookup_ok {st : St} (sid : Nat) (h : WF st) :
         · exact Or.inr (Nat.le_refl _)
         · exact Or.inl (mem_erase he).1
 
-/-- a callback script only issues and cancels lookups: it runs no callback -/
+theorem doAct_ok (self : Nat) (a : Act) {st : St} (h : WF st) :
+    StepOK st (doAct self st a).1 [] ∧ Ext st (doAct self st a).1 := by
+  cases a with
+  | lookup sid => exact lookup_ok sid h
+  | cancel id => exact cancel_ok id h
+  | cancelSelf => exact cancel_ok self h
+  | servers n => exact ⟨⟨h, fun s hs => ⟨hs, by simp⟩, by simp, by simp⟩, Ext.refl st⟩
+  | running id => exact ⟨StepOK.refl h, Ext.refl st⟩
+  | runningSelf => exact ⟨StepOK.refl h, Ext.refl st⟩
+
+/-- a callback script only issues and cancels lookups, changes the server list, asks
+`isRunning`: it runs no callback -/
 theorem runScript_ok (self : Nat) : ∀ (acts : List Act) (st : St), WF st →
     StepOK st (runScript self st acts).1 [] ∧ Ext st (runScript self st acts).1 := by
   intro acts
@@ -172,19 +183,9 @@ theorem runScript_ok (self : Nat) : ∀ (acts : List Act) (st : St), WF st →
   | nil => intro st h; exact ⟨StepOK.refl h, Ext.refl st⟩
   | cons a as ih =>
     intro st h
-    cases a with
-    | lookup sid =>
-      have h1 := lookup_ok sid h
-      have h2 := ih _ h1.1.1
-      exact ⟨by simpa [runScript] using h1.1.trans h2.1, by simpa [runScript] using h1.2.trans h2.2⟩
-    | cancel id =>
-      have h1 := cancel_ok id h
-      have h2 := ih _ h1.1.1
-      exact ⟨by simpa [runScript] using h1.1.trans h2.1, by simpa [runScript] using h1.2.trans h2.2⟩
-    | cancelSelf =>
-      have h1 := cancel_ok self h
-      have h2 := ih _ h1.1.1
-      exact ⟨by simpa [runScript] using h1.1.trans h2.1, by simpa [runScript] using h1.2.trans h2.2⟩
+    have h1 := doAct_ok self a h
+    have h2 := ih _ h1.1.1
+    exact ⟨by simpa [runScript] using h1.1.trans h2.1, by simpa [runScript] using h1.2.trans h2.2⟩
 
 /-- the lookup `(id, r)` is erased, then its callback runs (its script may issue and cancel
 lookups): `r.serial` is dead from the erase on, dead serials stay dead -/
@@ -301,6 +302,7 @@ theorem step_ok {st : St} (op : Op) (h : WF st) : StepOK st (step st op).1 (step
   | cancel id => exact (cancel_ok id h).1
   | running id => exact StepOK.refl h
   | recv d => exact onRecv_ok d h
+  | net d => exact onRecv_ok (d.take 4096) h
   | tick => exact tick_ok h
 
 /-- all callbacks of a run, in order -/
